@@ -600,7 +600,11 @@ def handleShplonk (r : Nat) (a : List String) : String :=
     let other := if polys2.isEmpty then none else inst polys2 (ch "g2") (ch "z2")
     match mutSh r a x other τ (ch "gv") (ch "zv") with
     | none => "bad-op"
-    | some y => verdict (shVerify F y.g1 y.h0 y.h1 y.proof y.digests y.points (ch "gv") (ch "zv"))
+    | some y =>
+      -- shape validation of BatchVerify (fix ee9fcd5): every row of claimed values must match its point set
+      if y.digests.length = y.proof.claimed.length ∧ y.digests.length = y.points.length ∧
+         (List.zip y.points y.proof.claimed).any (fun pc => pc.1.length ≠ pc.2.length) then "err"
+      else verdict (shVerify F y.g1 y.h0 y.h1 y.proof y.digests y.points (ch "gv") (ch "zv"))
 
 def handleFflonk (r gen : Nat) (a : List String) : String :=
   let F := fp r
